@@ -153,7 +153,9 @@ def versions_for(meta):
     vs = {None, 4.0, 99.0}
     for b in (meta.get("minVersion"), meta.get("maxVersion")):
         if b is not None:
-            vs |= {round(b - 0.1, 1), float(b), round(b + 0.1, 1)}
+            # at the bound, one release step and one tenth away, and as close as a caller can reasonably write
+            # (7.59 / 7.61): the statement is an inequality over numbers, not over release names
+            vs |= {round(b - 0.2, 1), round(b - 0.1, 1), round(b - 0.01, 2), float(b), round(b + 0.01, 2), round(b + 0.1, 1), round(b + 0.2, 1)}
     return sorted(vs, key=lambda x: (-1 if x is None else x))
 
 
